@@ -203,6 +203,60 @@ func OrderFacts(f *hc.Facts) {
 	}
 	f.Const("diffLimitUser", pkgDir, "diffLimitUser")
 	routingFacts(f)
+	SkipFacts(f)
+}
+
+// SkipFacts: in the conversion loop of internalState.applyPts / channelState.applyPts, which statement
+// skips an affectedPts marker? 0 = `continue` (only the marker is skipped), 1 = `break` (everything
+// after it is dropped); any other shape is emitted as a missing fact.
+func SkipFacts(f *hc.Facts) {
+	for _, fn := range []struct{ lean, goName string }{{"applyPtsSkip", "internalState.applyPts"}, {"chApplyPtsSkip", "channelState.applyPts"}} {
+		fd := f.FuncDecl(pkgDir, fn.goName)
+		verdict, why := -1, "no `if _, ok := update.Value.(affectedPts); ok { … }` inside a range loop"
+		if fd != nil && fd.Body != nil {
+			ast.Inspect(fd.Body, func(n ast.Node) bool {
+				rs, ok := n.(*ast.RangeStmt)
+				if !ok {
+					return true
+				}
+				for _, st := range rs.Body.List {
+					is, ok := st.(*ast.IfStmt)
+					if !ok || is.Init == nil || !strings.Contains(strings.Join(strings.Fields(f.Src(is.Init)), ""), ".(affectedPts)") {
+						continue
+					}
+					if is.Else != nil || len(is.Body.List) != 1 {
+						verdict, why = -1, "marker branch is not a single statement: "+strings.Join(strings.Fields(f.Src(is.Body)), " ")
+						continue
+					}
+					// the marker test must come before any use of the update in the loop body
+					if st != rs.Body.List[0] {
+						verdict, why = -1, "the marker test is not the first statement of the loop"
+						continue
+					}
+					switch b := is.Body.List[0].(type) {
+					case *ast.BranchStmt:
+						if b.Label != nil {
+							verdict, why = -1, "labelled branch"
+						} else if b.Tok.String() == "continue" {
+							verdict = 0
+						} else if b.Tok.String() == "break" {
+							verdict = 1
+						} else {
+							verdict, why = -1, "branch "+b.Tok.String()
+						}
+					default:
+						verdict, why = -1, "marker branch: "+strings.Join(strings.Fields(f.Src(is.Body)), " ")
+					}
+				}
+				return true
+			})
+		}
+		if verdict < 0 {
+			f.Missing(fn.lean, fn.goName+": "+why)
+		} else {
+			f.Nat(fn.lean, verdict, fn.goName+": statement that skips an affectedPts marker (0 continue, 1 break)")
+		}
+	}
 }
 
 // updatesArg returns the source of the `Updates:` field of the composite literal passed
